@@ -981,7 +981,8 @@ def bad_call(mab, label, inv, base, cls, rng, d, arms, fitted, all_arms=False):
         elif cls == "add_none":
             mab.add_arm(None)
         elif cls == "add_nan":
-            mab.add_arm(np.nan)
+            # the np.nan object itself, or another NaN (float('nan') is not found by an identity / `in` test)
+            mab.add_arm(np.nan if rng.random() < 0.5 else float("nan"))
         elif cls == "add_inf":
             mab.add_arm(np.inf)
         elif cls == "add_unhashable":
